@@ -121,6 +121,20 @@ def run(prop, tier, seed):
                 o['a']['busy'] = [rng.randrange(1, shards), rng.choice([1, 1, 2])]
         tid += 1
         jobs.append((cfg, ops, seed + i, tid))
+    # more than one page (100 rows) per shard, the lock taken by another client BETWEEN the pages, repeatedly
+    for j in range(2 if tier == 'quick' else 12):
+        shards = rng.choice([2, 3])
+        cfg = gen.random_cfg(rng, small_limit=False)
+        cfg.update(limit=2 ** 30, shards=shards, cull=0, policy='none')
+        K = lambda i: [1] + [ord(ch) for ch in 'b%04d' % i]
+        ops = [{'op': 'set', 'a': {'k': K(i), 'v': i % 5, 'ttl': [1] if i % 2 else [], 'tag': 1 + (i % 2)}, 'form': 0} for i in range(230 * shards)]
+        ops.append({'op': 'tick', 'a': {'n': 3}, 'form': 0})
+        bulk = rng.choice(['expire', 'evict', 'clear'])
+        ops.append({'op': bulk, 'a': dict({'tag': 2} if bulk == 'evict' else {}, busy=[rng.randrange(shards), 2, 1, 2]), 'form': 0})
+        ops.append({'op': 'len', 'a': {}, 'form': 0})
+        ops.append({'op': 'clear', 'a': {'busy': [rng.randrange(shards), 1, 1, 3]}, 'form': 0})
+        tid += 1
+        jobs.append((cfg, ops, seed + 8000 + j, tid))
     traces = pmap(_run, jobs, procs=14)
     out.traces = len(traces)
     out.events = sum(len(t['ev']) for t in traces)
